@@ -6,8 +6,24 @@ package encryption
 
 //@ func DecryptHeader
 //@   property C08
-//@   modifies *, hdrVerified[hdr], hdrSubstituted[hdr], hashInput
+//@   modifies *, hdrVerified[hdr], hdrSubstituted[hdr], hdrSealed[hdr], hashInput
 
 //@ func DecryptString
 //@   property C08
 //@   modifies *, hashInput
+
+//@ func EncryptString
+//@   property C09
+//@   modifies *, bufCipher
+//@   ensures [cipher] encryptionFormat != "" && err == nil ==> isCipher(result0)
+//@   ensures [known-formats] encryptionFormat != "" && encryptionFormat != "age" && encryptionFormat != "pgp" ==> err != nil
+
+//@ func EncryptHeader
+//@   property C09
+//@   modifies *, bufCipher, hdrSealed[hdr], hdrVerified[hdr], hdrSubstituted[hdr], hdrSealed[hdr]
+//@   ghostset hdrSealed[hdr] := err == nil && encryptionFormat != ""
+//@   ensures [marks-sealed] encryptionFormat != "" && err == nil ==> hdrSealed[hdr]
+//@   ensures [wrapper-only] encryptionFormat != "" && err == nil ==> hdr.Name == "" && hdr.Linkname == "" && hdr.Uname == "" && hdr.Gname == "" && hdr.Mode == 0 && hdr.Uid == 0 && hdr.Gid == 0 && hdr.Typeflag == 0 && hdr.Devmajor == 0 && hdr.Devminor == 0 && hdr.Xattrs == nil
+//@   ensures [size-kept] encryptionFormat != "" && err == nil ==> hdr.Size == old(hdr.Size) && hdr.Format == 4
+//@   ensures [only-embedded-record] encryptionFormat != "" && err == nil ==> forall k string :: has(hdr.PAXRecords, k) ==> k == "STFS.EmbeddedHeader"
+//@   ensures [embedded-is-cipher] encryptionFormat != "" && err == nil ==> isCipher(hdr.PAXRecords["STFS.EmbeddedHeader"])
